@@ -32,5 +32,24 @@ known("C29","name local * | *","local-name (and label-name) maps are replayed ve
       {"base":"named-all","history":"[AddImportFunc]","observe":"local names of $loc_a appear on the function one index lower"})
 known("C29","name global * | *","the global-name map is replayed verbatim with the indices of the input: after adding an imported global or deleting a global the names sit on other globals",
       {"base":"named-all","history":"[AddImportedGlobal]"})
+
+fixed("C25","92adedc","panic no-local-functions","ModuleIterator::new panicked on a module without local functions (witness: (module))")
+fixed("C25","92adedc","panic all-skipped","ModuleIterator panicked when every local function is skipped (witness: (module (func)) with skip [0])")
+fixed("C25","92adedc","walk is-end-flag first-visited-after-leading-skip","first visited function after a skipped function 0 was walked with function 0's instruction count")
+fixed("C26","e467a5a","visit-sequence early-stop trailing-skipped-nonlast-module","ComponentIterator stopped at a module whose trailing functions are skipped")
+fixed("C26","e467a5a","visit-sequence after-reset stale-skip-list","ComponentIterator::reset re-entered module 0 with the skip list of the last module")
+fixed("C26","92adedc","panic module-without-local-functions","ComponentIterator panicked on modules without local functions / with all functions skipped")
+fixed("C27","1310da4","structure nested-depth>=3","components nested >= 3 levels deep were re-structured by parse (sections of a grandchild's parent attributed to the grandparent)")
+fixed("C27","cf00b5f","text-differs in type stream->future","(stream) without payload inside an instance/component type was encoded as (future)")
+fixed("C27","91876ce","text-differs item core rec->core type","explicit core rec groups inside instance/component types were flattened into separate core types")
+fixed("C28","d111ae9","panic parse ir/module/mod.rs:called `Option::unwrap()` on a `None` value","Module::parse panicked on a valid producers section without fields")
+fixed("C03","ae5eedc","panic ir/wrappers.rs:*namemap*","malformed name maps (module and component name sections) panicked in parse")
+fixed("C03","d111ae9","panic ir/module/mod.rs:Module::parse_internal:producers field*","producers section decoding panicked (no field / malformed field / malformed values)")
+fixed("C03","ce39a86","panic ir/module/mod.rs:Module::parse_internal:Error encored in tag section!*","tag section read error, name of a body-less function (index out of bounds), function with missing or non-function type (no entry found for key / Not a function!) panicked in parse")
+fixed("C03","edd268b","panic ir/types.rs:InitExpr::eval:Invalid constant expression*","constant expressions outside the IR's operator list (incl. valid extended-const / any.convert_extern) panicked in parse")
+fixed("C03","37ee094","panic ir/component.rs:Component::parse_comp:range end index*","truncated nested module/component section panicked with an out-of-range slice")
+fixed("C03","69c00f7","abort SIGSEGV (component) nested-components","2048 nested components overflowed the stack in Component::parse")
+known("C03","abort SIGSEGV (component) nested-component-types","a type section with >= ~16000 nested component/instance types (49 KB) overflows the 8 MiB stack inside wasmparser 0.235's recursive type reader, reached through Component::parse (wasmparser's own Validator overflows on the same input); depth 4096 is fine. Not repairable inside wirm without running the parser on a larger stack.",
+      {"seed":"ctype-ladder-16384","parser":"Component::parse"})
 json.dump(F,open("/verif/known_findings.json","w"),indent=1)
 print(len(F),"entries")
